@@ -17,7 +17,7 @@ from ..models import smoothing as SM
 
 PROPERTY = "C17"
 NUM = 17
-RULE = ("cases = 1-12 equal-length windows (even/odd lengths 64..40000, dt from 8 values, signals incl. DC offsets and "
+RULE = ("cases = 1-12 (now and then 20-130, of unequal power) equal-length windows (even/odd lengths 64..40000, dt from 8 values, signals incl. DC offsets and "
         "Nyquist-rate alternation) x Tukey width x optional user FFT length x smoothing off / on with each operator; "
         "preprocessing cases = differentiate on/off x flat or pole-zero response x filter; non-trivial = signal with non-zero "
         "DC or Nyquist content (so the two excluded bins matter) or >= 2 windows; distinct = (oracle, n windows, length, dt, "
@@ -39,8 +39,13 @@ DTS = [0.002, 0.004, 0.005, 0.01, 0.02, 1 / 75, 1 / 150, 0.0078125]
 
 
 def gen_windows(rng, k=None, L=None):
+    many = k is None and L is None and rng.random() < 0.2
     k = int(k if k is not None else rng.choice([1, 1, 2, 3, 6, 12]))
     L = int(L if L is not None else rng.choice([64, 101, 500, 1001, 4096, 9000, 40000]))
+    if many:
+        # a long recording split into many (short) windows: tens to a hundred of them, of unequal power
+        k = int(rng.choice([31, 33, 50, 64, 75, 100, int(rng.integers(20, 130))]))
+        L = int(rng.choice([64, 101, 500]))
     sc = gen.scale(rng)
     t = np.arange(L)
     wins = []
@@ -53,6 +58,9 @@ def gen_windows(rng, k=None, L=None):
             if rng.random() < 0.4:
                 x = x + sc * float(rng.uniform(0.5, 3)) * (-1.0) ** t  # Nyquist-rate alternation
             w.append(x)
+        if many:
+            g = float(10 ** rng.uniform(-1, 1))                   # windows differ in power (non-stationary noise)
+            w = [x * g for x in w]
         wins.append(w)
     return wins, k, L, sc
 
